@@ -1275,3 +1275,26 @@ PROPS["C12"]["partial_gap"] += (' UPDATE 2: gap_wait_never_ends is covered too (
     'oracle-soundness chain of C12 is closed for model transcripts under apps_total, builder_valid, app_sends_data, app_sends_requests, ins_ok '
     '(strictly increasing poll times). What remains outside Coq is the usual link model <-> Rust (differential testing) and the hook-based fields '
     'of the view (v_gap_due, v_scan_await).')
+
+# ---- agent fp: oracle soundness of the reaction-time monitor Model/FdlPrompt.v (coq/Proofs/FdlPromptSound1.v, FdlPromptSound2.v) ----
+PROPS["C01"]["level_note"] += (' C01_prompt_monitor_sound (Proofs/FdlPromptSound1.v, FdlPromptSound2.v): the reaction-time monitor '
+    'Model/FdlPrompt.v (rule P01_reaction_after_slot_time: in PassToken, UseToken, ClaimToken outside ScanAwaitResponse, ListenToken / ActiveIdle '
+    'with a pending status request, on a quiet bus, the station must have acted by the first poll at or after reference + Tslot - 11 bit) is never '
+    'triggered by the model: pmonitor p (pmodel_transcript A ops p apps ins) = [] for ALL parameters (pmonitor monitors what builder_validb accepts), '
+    'any total applications, ALL input histories with strictly increasing poll times (API calls, busy flags, arbitrary received bytes; corner O9 '
+    'included) - no exclusion. pmodel_transcript = the (event, flag) list ocaml/run_fdl.ml hands to pmonitor: the events of model_transcript '
+    '(C01_prompt_transcript_events) with the per-event flag "a status request waits for its reply" as a function of the model state after the event '
+    '(the driver reads it from the hook fingerprint). Also as inductive-step theorems from ANY station / monitor pair satisfying the explicit invariant '
+    'FdlPromptSound2.PB (C01_prompt_monitor_step: one poll is accepted and keeps PB; C01_prompt_monitor_api; C01_prompt_invariant_init; '
+    'C01_prompt_monitor_from: every continuation is accepted). Proof: simulation (q_ref >= last_bus_activity, q_txend agrees with it about an ongoing '
+    'transmission, pending_bytes covers the buffer unless q_spur, in every state but Offline / ListenToken without request); model lemmas: a step that '
+    'consumes nothing never marks bus activity (dispatch_nm, all do_* functions), a gated state whose synchronisation pause is over transmits, changes '
+    'state or ends the GAP polling phase in that poll (gated_acts), 33 bit + 11 bit < Tslot for builder-valid parameters. Non-vacuity: '
+    'C01_prompt_example (computed model history through the gated state ClaimToken with polls inside the synchronisation pause, accepted) and '
+    'C01_prompt_monitor_rejects_stuck_station (a hand-made transcript of a station stuck in PassToken is reported).')
+PROPS["C01"]["partial_gap"] = PROPS["C01"]["partial_gap"].replace(
+    ' Oracle soundness: the promptness monitor Model/FdlPrompt.v (P01_sync_pause_exceeded) is NOT covered.',
+    ' Oracle soundness: complete for the single-station monitors of C01, the reaction-time monitor Model/FdlPrompt.v included '
+    '(C01_prompt_monitor_sound; hypotheses: total applications, strictly increasing poll times in range). Outside Coq remain the link model <-> Rust '
+    '(differential testing) and the hook-based inputs of the monitor (state name, GAP phase, ScanAwaitResponse, pending status request read from the '
+    'fingerprint).')
